@@ -12,7 +12,7 @@ def _dump_chunk(items):
     from . import drive, graph_proj
     out = []
     for it in items:
-        d = drive.dump(it["sql"], it["dialect"], metadata=it["metadata"])
+        d = drive.dump(it["sql"], it["dialect"], metadata=it["metadata"], pre_calls=it.get("pre_calls", ()))
         p = graph_proj.project(d)
         extra = None
         if p is not None:
@@ -36,6 +36,10 @@ def chunks(xs, n):
 
 def run(chk, which, items):
     from . import features
+    PRE = [(), ({"exclude_path_ending_in_subquery": False},), ({"exclude_subquery_columns": True},), ("cytoscape_column", "str"),
+           ({"exclude_path_ending_in_subquery": False, "exclude_subquery_columns": True}, "cytoscape_table")]
+    for i, it in enumerate(items):
+        it["pre_calls"] = PRE[(i + chk.seed) % len(PRE)]
     pool = mp.Pool(16)
     try:
         res = pool.map(_dump_chunk, chunks(items, 64))
@@ -66,7 +70,7 @@ def run(chk, which, items):
         sig = {"module": "Graph", "clause": verdict, "features": features.features(it["sql"], it["dialect"]) or ["none"],
                "input": it["origin"] if it["origin"].startswith("tpcds/") else features.sql_id(it["sql"], it["dialect"]),
                "dup_cause": extra["dup_cause"]}
-        chk.reject(sig, {"clause": verdict, "sql": it["sql"], "dialect": it["dialect"], "metadata": it["metadata"], "origin": it["origin"],
+        chk.reject(sig, {"clause": verdict, "sql": it["sql"], "dialect": it["dialect"], "metadata": it["metadata"], "origin": it["origin"], "accessors_called_before": [str(x) for x in it.get("pre_calls", ())],
                          "dup_ids": extra["dup_ids"], "how": "harness.drive.dump -> harness.graph_proj.project -> Trace_Graph (%s clauses)" % which})
     if traces:
         big = max(traces, key=lambda t: len(t["cnodes"]))
